@@ -116,6 +116,27 @@ def caseLhsIds : List (List Expr × Stmt) → List String
   | (_, b) :: rest => stmtLhsIds b ++ caseLhsIds rest
 end
 
+-- `case (e) endcase` without any item and without default: not derivable from the IEEE 1364 grammar
+-- (case_statement needs at least one case_item); the Go reader accepts it, this check reports it
+mutual
+def emptyCases : Stmt → Nat
+  | .null => 0
+  | .assign _ _ _ => 0
+  | .ite _ t e => emptyCases t + emptyCases e
+  | .block _ _ ss => emptyCasesL ss
+  | .case _ items d =>
+    (match items, d with
+      | [], .null => 1
+      | _, _ => 0) + emptyCasesI items + emptyCases d
+  | .for i _ s b => emptyCases i + emptyCases s + emptyCases b
+def emptyCasesL : List Stmt → Nat
+  | [] => 0
+  | s :: ss => emptyCases s + emptyCasesL ss
+def emptyCasesI : List (List Expr × Stmt) → Nat
+  | [] => 0
+  | (_, b) :: rest => emptyCases b + emptyCasesI rest
+end
+
 def connExprs : Conns → List Expr
   | .positional es => es.filterMap id
   | .named cs => cs.filterMap (·.2)
@@ -168,8 +189,16 @@ def instStatus (mods : List Module) (opq ext : List String) (modName : String) (
       | some (p, _) => .portName p
       | none => .ok
 
+def Module.emptyCases (m : Module) : Nat :=
+  (m.items.map fun it => match it with
+    | .always _ _ b => BMV.Vlog.emptyCases b
+    | .initial b => BMV.Vlog.emptyCases b
+    | _ => 0).foldl (· + ·) 0
+
 /-- all source-level findings of one module -/
 def Module.findings (mods : List Module) (opq ext : List String) (m : Module) : List Finding :=
+  (if m.emptyCases > 0 then
+    [⟨"syntax", m.name, s!"{m.emptyCases} case statement(s) without any case item (IEEE 1364: at least one is required)"⟩] else []) ++
   (m.undeclared.map fun n => ⟨"undeclared", m.name, s!"identifier {n}"⟩) ++
   (m.items.filterMap fun it => match it with
     | .inst mn n _ cs =>
